@@ -116,45 +116,63 @@ class _Recorder:
         return getattr(hashlib, k)
 
 
+def _advertised():
+    """the advertised names, computed independently of the module under test"""
+    return sorted(set(hashlib.algorithms_guaranteed) | {"MD5", "SHA-256", "CRC-64-AVRO"})
+
+
+NAME_CAP = [12]
+
+
+def _or(*xs):
+    return z3.Or(*[Z(x) for x in xs]) if xs else z3.BoolVal(False)
+
+
 def h_dispatch(m):
-    """every advertised fixed-length name (and the Java spellings) reaches hashlib.new with the
-    mapped name and the UTF-8 bytes of the text; CRC-64-AVRO goes to rabin_fingerprint; any
-    other name raises ValueError."""
+    """The algorithm name is a symbolic string (every ASCII string of at most NAME_CAP characters): ValueError is
+    raised exactly for names outside the advertised set; every advertised fixed-length name (and the Java
+    spellings) reaches hashlib.new with the mapped name and the UTF-8 bytes of the text; CRC-64-AVRO goes to
+    rabin_fingerprint."""
     mod = m.mod(SP)
-    real = m.mod(SC)
-    names = sorted(n for n in real.FINGERPRINT_ALGORITHMS)
+    adv = _advertised()
     java = {"SHA-256": "sha256", "MD5": "md5"}
+    name = m.sstr("A", NAME_CAP[0], small=8)
     text = m.ostr("T")
     payload = text.encode()
+    is_adv = _or(*[name == a for a in adv])
     saved_h, saved_r = mod.hashlib, mod.rabin_fingerprint
+    rec = _Recorder()
+    rabin_calls = []
+    mod.hashlib = rec
+    mod.rabin_fingerprint = lambda d: (rabin_calls.append(d), "rabin")[1]
     try:
-        for name in names + [_Unknown("no-such-algorithm"), _Unknown("")]:
-            rec = _Recorder()
-            rabin_calls = []
-            mod.hashlib = rec
-            mod.rabin_fingerprint = lambda d: (rabin_calls.append(d), "rabin")[1]
-            try:
-                r = mod.fingerprint(text, name)
-            except ValueError:
-                m.prove(f"dispatch.unknown_raises", isinstance(name, _Unknown),
-                        f"advertised algorithm {name!r} raised ValueError")
-                continue
-            except Exception as e:
-                m.fail("dispatch.no_other_exception", f"{name!r}: {type(e).__name__}")
-                continue
-            if isinstance(name, _Unknown):
-                m.fail("dispatch.unknown_raises", f"unknown algorithm {name!r} returned {r!r}")
-                continue
-            if name == "CRC-64-AVRO":
-                ok = r == "rabin" and len(rabin_calls) == 1 and not rec.calls
-                m.prove("dispatch.rabin", ok and _same_payload(m, rabin_calls[0], payload), "CRC-64-AVRO not computed by rabin_fingerprint over the UTF-8 bytes")
-                continue
-            want = java.get(name, name)
-            ok = len(rec.calls) == 1 and rec.calls[0][0] == want and r == ("digest", want, id(rec.calls[0][1]))
-            m.prove("dispatch.hashlib", ok and _same_payload(m, rec.calls[0][1], payload),
-                    f"{name!r} is not hashlib.new({want!r}, utf8(text)).hexdigest()")
-    finally:
-        mod.hashlib, mod.rabin_fingerprint = saved_h, saved_r
+        try:
+            r = mod.fingerprint(text, name)
+        except ValueError:
+            m.prove("dispatch.unknown_raises", z3.Not(is_adv), "an advertised algorithm name raised ValueError")
+            return
+        finally:
+            mod.hashlib, mod.rabin_fingerprint = saved_h, saved_r
+    except (TypeError, KeyError, AttributeError) as e:
+        m.fail("dispatch.no_other_exception", f"{type(e).__name__}: {e}")
+        return
+    m.prove("dispatch.unknown_raises", is_adv, f"a name outside the advertised set did not raise ValueError (returned {r!r})")
+    is_rabin = Z(name == "CRC-64-AVRO")
+    if rabin_calls:
+        ok = isinstance(r, str) and r == "rabin" and len(rabin_calls) == 1 and not rec.calls and _same_payload(m, rabin_calls[0], payload)
+        m.prove("dispatch.rabin", z3.And(is_rabin, z3.BoolVal(bool(ok))),
+                "rabin_fingerprint used for a name other than CRC-64-AVRO, or not over the UTF-8 bytes")
+        return
+    m.prove("dispatch.rabin", z3.Not(is_rabin), "CRC-64-AVRO not computed by rabin_fingerprint")
+    if len(rec.calls) != 1:
+        m.fail("dispatch.hashlib", f"hashlib.new called {len(rec.calls)} times")
+        return
+    called, data = rec.calls[0]
+    shape = isinstance(r, tuple) and len(r) == 3 and r[0] == "digest" and r[2] == id(data) and _same_payload(m, data, payload)
+    # for every advertised name a: name == a  ->  hashlib.new was called with java.get(a, a)
+    conds = [z3.Implies(Z(name == a), Z(called == java.get(a, a))) for a in adv if a != "CRC-64-AVRO"]
+    m.prove("dispatch.hashlib", z3.And(z3.BoolVal(bool(shape)), *conds),
+            "the result is not hashlib.new(<mapped name>, utf8(text)).hexdigest()")
 
 
 def _same_payload(m, got, want):
@@ -181,9 +199,12 @@ def run(run, tier):
     r.check(h_dispatch, "fingerprint", expect=["dispatch.unknown_raises", "dispatch.rabin", "dispatch.hashlib"])
     run.bounds += ["rabin: init + one step from an arbitrary 64-bit state and arbitrary byte + output formatting "
                    "(induction over the input length: every length); end-to-end for |data| <= %d symbolic bytes" % E2E_MAX[0],
-                   "dispatch: every name in FINGERPRINT_ALGORITHMS (enumerated from the module) plus two names outside it; "
-                   "text is an arbitrary string (opaque, UTF-8 encoding uninterpreted)"]
-    run.outside += ["digest internals (OpenSSL/hashlib C code): hashlib.new is a recording stub",
+                   "dispatch: the algorithm name is a symbolic ASCII string of at most %d characters (characters 1..127), so every "
+                   "advertised name and every unknown name within that bound; the advertised set is recomputed independently "
+                   "(hashlib.algorithms_guaranteed + Java spellings + CRC-64-AVRO); text is an arbitrary string (opaque, UTF-8 "
+                   "encoding uninterpreted)" % NAME_CAP[0]]
+    run.outside += ["algorithm names longer than %d characters or containing non-ASCII characters / NUL" % NAME_CAP[0],
+                    "digest internals (OpenSSL/hashlib C code): hashlib.new is a recording stub",
                     "shake_* variable-length digests: hexdigest() needs a length; excluded by the property"]
     run.assumptions += ["loop cut: the state variable `result` of rabin_fingerprint is havocked right before its loop "
                         "(AST rewrite of the current source); soundness of the induction needs the loop body to depend on "
